@@ -103,7 +103,9 @@ class PEval:
             if is_const(a) and is_const(b):
                 try:
                     return {ast.Add: lambda: a + b, ast.Sub: lambda: a - b, ast.Mult: lambda: a * b, ast.FloorDiv: lambda: a // b,
-                            ast.Mod: lambda: a % b}[type(e.op)]()
+                            ast.Mod: lambda: a % b, ast.LShift: lambda: a << b, ast.RShift: lambda: a >> b, ast.BitOr: lambda: a | b,
+                            ast.BitAnd: lambda: a & b, ast.BitXor: lambda: a ^ b,
+                            ast.Pow: lambda: a ** b if isinstance(b, int) and (abs(b) < 64 or (isinstance(a, float) and abs(b) < 1100)) else None}[type(e.op)]()
                 except (TypeError, KeyError, ZeroDivisionError):
                     pass
             return sym(ast.unparse(e)[:40])
@@ -148,8 +150,19 @@ class PEval:
             if is_const(args[0]) and hasattr(args[0], '__len__'):
                 return len(args[0])
             return sym(key)
+        if ast.unparse(e) in env:
+            return env[ast.unparse(e)]            # a call whose value the caller of the evaluator fixes (e.g. self._getuint())
+        if name == 'float' and len(args) == 1 and isinstance(args[0], str) and args[0].lstrip('+-').lower() in ('nan', 'inf', 'infinity'):
+            return float(args[0])
         if name in ('float', 'int', 'bool', 'str') and len(args) == 1:
             return args[0] if not is_const(args[0]) else sym(f'{name}(..)')
+        if isinstance(e.func, ast.Attribute) and e.func.attr == 'get' and 1 <= len(args) <= 2:
+            base = self.ev(e.func.value, env)
+            if isinstance(base, dict) and is_const(args[0]):
+                try:
+                    return base.get(self._hashable(args[0]), args[1] if len(args) > 1 else None)
+                except TypeError:
+                    pass
         if name in ('struct.pack', 'struct.unpack', 'struct.calcsize'):
             self.calls.append((name, args, e, self.f.key))
             return ('call', name, tuple(args))
@@ -192,7 +205,7 @@ class PEval:
     # ------------------------------------------------------------------ statements
     def run(self):
         body = [s for s in self.f.node.body if not (isinstance(s, ast.Expr) and isinstance(s.value, ast.Constant))]
-        self.block(body, dict(self.env))
+        self.final_envs = self.block(body, dict(self.env))
         return self
 
     def block(self, stmts, env):
@@ -220,6 +233,8 @@ class PEval:
                     for tt, vv in zip(t.elts, v):
                         if isinstance(tt, ast.Name):
                             env[tt.id] = vv
+                        else:
+                            env[ast.unparse(tt)] = vv
                 elif isinstance(t, (ast.Tuple, ast.List)):
                     for tt in t.elts:
                         if isinstance(tt, ast.Name):
